@@ -115,7 +115,12 @@ def main():
     app = drawing.app
     root_setting = arg.get("root_setting", "env")
     approot = root
-    if root_setting == "draw":
+    if root_setting == "env_then_draw":
+        # requests are served under the first root before the root is re-pointed (per-instance caches must follow the root)
+        for route, payload in (("/script", {"f": os.path.join(base, f["in"][0])}), ("/directory", {"d": root}), ("/lineage", {"f": os.path.join(base, f["in"][0])})):
+            call(app, "POST", route, payload)
+        call(app, "GET", "/")
+    if root_setting in ("draw", "env_then_draw"):
         class _NoServer:
             def __enter__(self):
                 return self
